@@ -99,7 +99,8 @@ let parse_md (s : string) : mdt option =
   if s = "-" || s = "" || s = "absent" then None
   else if s = "{}" then Some []
   else Some (List.map (fun kv ->
-      let i = String.index kv '=' in
+      let i = (try String.index kv '=' with Not_found -> String.length kv) in
+      if i = String.length kv then (dstr kv, []) else
       let k = String.sub kv 0 i and vs = String.sub kv (i + 1) (String.length kv - i - 1) in
       (dstr k, if vs = "" then [] else List.map dstr (split ',' vs))) (split ';' s))
 
@@ -240,14 +241,17 @@ let parse_event (line : string) : ev =
                          else (false, None)) in
        WaitCall (getn a "n", keyed, key)
      | "waitret" -> WaitRet (getn a "n", parse_res (get a "res"))
+     | "harnessfail" -> HarnessFail (getn a "code", getz a "a", getz a "b")
      | "PANIC" -> Panic
      | "skip" -> Skip
      | _ -> Other)
 
 let keys_cfg = ref false
+let free_cfg = ref false
 let cfg_of (toks : string list) : cfg =
   let a = assoc_of toks in
   keys_cfg := (get a "keys" = "1");
+  free_cfg := (get a "free" = "1");
   { c_rev = (get a "mode" = "rev"); c_cdis = (get a "cdis" = "1"); c_sdis = (get a "sdis" = "1");
     c_cleg = (get a "cleg" = "1"); c_sleg = (get a "sleg" = "1"); c_rawc = (get a "rawc" = "1"); c_raws = (get a "raws" = "1") }
 
@@ -280,6 +284,11 @@ let run_traces (path : string) =
            let tr = List.rev !evs in
            let c = !cfg in
            let fails =
+             if !free_cfg then
+               (* free-running traces have no controller actions: only the monitors that do not
+                  depend on "what happened while the system settled after action n" apply *)
+               mon_wire c tr @ mon_C01 c tr @ mon_C02 c tr @ mon_C08 tr @ mon_C16 c tr @ mon_C17 c tr @ mon_C14 c tr @ mon_panic tr
+             else
              mon_wire c tr @ mon_C01 c tr @ mon_C02 c tr @ mon_C03 c tr @ mon_C04 c tr @ mon_C07 c tr @ mon_C08 tr @
              mon_C10 c tr @ mon_C14 c tr @ mon_C16 c tr @ mon_C17 c tr @ mon_C18 tr @ mon_panic tr @ mon_tables c tr @ mon_ctable c tr @ mon_negotiate c tr @ mon_overrun c tr @ mon_registry c !keys_cfg tr in
            let status = (match split ' ' rest with _ :: st :: _ -> st | _ -> "?") in
